@@ -151,7 +151,36 @@ func genBracket(r *RNG, p *Pool) string {
 var extraRangeGens = map[string][]func(r *RNG, p *Pool) string{}
 
 // genRange produces a mostly valid native range over bounds from the pool.
+// genRange: one range text of the ecosystem's grammar; when the tree under check has string
+// constants that the pinned tree has not (codelits.go), a share of the texts carries one of them
+// at a token boundary, in place of the operator, or around the text.
 func genRange(r *RNG, eco string, p *Pool) string {
+	s := genRange0(r, eco, p)
+	if ws := newStrsFor(eco); len(ws) > 0 && r.Chance(20) {
+		w := ws[r.Intn(len(ws))]
+		toks := tokens(s)
+		switch r.Intn(4) {
+		case 0:
+			if len(toks) > 0 {
+				i := r.Intn(len(toks) + 1)
+				s = strings.Join(toks[:i], "") + w + strings.Join(toks[i:], "")
+			}
+		case 1:
+			if len(toks) > 0 {
+				i := r.Intn(len(toks))
+				toks[i] = w
+				s = strings.Join(toks, "")
+			}
+		case 2:
+			s = w + s
+		default:
+			s = s + w
+		}
+	}
+	return s
+}
+
+func genRange0(r *RNG, eco string, p *Pool) string {
 	syn := rangeSyn[eco]
 	if len(p.Strs) == 0 {
 		return ">=1"
